@@ -50,8 +50,22 @@ def run(ctx):
     calls = [c for c in ast.walk(vl.node) if isinstance(c, ast.Call) and X.call_name_of(c) == 'get_pyrange']
     if not calls:
         raise AnalysisError('LoopUnrollTransformer.visit_Loop no longer uses get_pyrange')
-    ok = 'LoopRange((start, stop, step))' in ast.unparse(calls[0]) and X.has(src, 'start, stop = (o.bounds.start, o.bounds.stop)') \
-        and X.has(src, 'o.bounds.step')
+    # the three values handed to get_pyrange must be bound to o.bounds.start / .stop / .step (default 1)
+    arg = calls[0].args[0] if calls[0].args else None
+    elts = []
+    if isinstance(arg, ast.Call) and X.call_name_of(arg) == 'LoopRange' and arg.args and isinstance(arg.args[0], ast.Tuple):
+        elts = [ast.unparse(e) for e in arg.args[0].elts]
+    binding = {}
+    for n in ast.walk(vl.node):
+        if isinstance(n, ast.Assign):
+            t, v = n.targets[0], n.value
+            if isinstance(t, ast.Tuple) and isinstance(v, ast.Tuple) and len(t.elts) == len(v.elts):
+                for a, b in zip(t.elts, v.elts):
+                    binding[ast.unparse(a)] = ast.unparse(b)
+            elif isinstance(t, ast.Name):
+                binding[t.id] = ast.unparse(v)
+    ok = len(elts) == 3 and binding.get(elts[0]) == 'o.bounds.start' and binding.get(elts[1]) == 'o.bounds.stop' \
+        and 'o.bounds.step' in binding.get(elts[2], '')
     (ctx.judge('R1', 'unroller passes start/stop/step') if ok else
      ctx.violation('R1', 'LoopUnrollTransformer.visit_Loop:range', vl.where, 'the range handed to get_pyrange is not built from '
                    'start, stop and step of the loop'))
@@ -73,8 +87,13 @@ def run(ctx):
         ctx.judge('R1', 'iteration set honours the step sign')
     # ---- R3
     subs = [c for c in ast.walk(vl.node) if isinstance(c, ast.ListComp) and 'SubstituteExpressions' in ast.unparse(c)]
-    ok = subs and all(ast.unparse(c.elt) == 'SubstituteExpressions({o.variable: sym.IntLiteral(i)}).visit(o.body)'
-                      and ast.unparse(c.generators[0].iter) == 'unroll_range' and not c.generators[0].ifs for c in subs)
+    rng = (X.names_assigned_from(vl.node, 'get_pyrange(') or ['unroll_range'])[0]
+
+    def one_per_iteration(c):
+        g = c.generators[0]
+        return isinstance(g.target, ast.Name) and not g.ifs and ast.unparse(g.iter) == rng \
+            and ast.unparse(c.elt) == f'SubstituteExpressions({{o.variable: sym.IntLiteral({g.target.id})}}).visit(o.body)'
+    ok = subs and all(one_per_iteration(c) for c in subs)
     (ctx.judge('R3', 'one substituted body per iteration', facts={'sites': len(subs)}) if ok else
      ctx.violation('R3', 'LoopUnrollTransformer.visit_Loop:copies', vl.where, 'unrolled copies are not one substituted body per enumerated iteration'))
     # ---- R2
@@ -108,7 +127,9 @@ def run(ctx):
                               f'with a non-unit step is silently turned into a unit-step loop', facts=facts)
     ctx.floor('R2', 'functions constructing LoopRange', n, 4)
     pl = m.module_by_path('loki/analyse/util_polyhedron.py')
-    ok = 'assert loop_range.step is None or loop_range.step ==' in pl.src
+    flr = m.get_function('loki/analyse/util_polyhedron.py', 'Polyhedron.from_loop_ranges')
+    ok = any(isinstance(a, ast.Assert) and '.step is None or' in ast.unparse(a.test) and '.step ==' in ast.unparse(a.test)
+             for a in ast.walk(flr.node))
     (ctx.judge('R2', 'Polyhedron.from_loop_ranges rejects non-unit steps') if ok else
      ctx.violation('R2', 'Polyhedron.from_loop_ranges:step-assert', pl.relpath, 'the polyhedron construction no longer rejects non-unit steps: '
                    'fusion/interchange would drop strides'))
